@@ -89,6 +89,11 @@ class Adapter:
             if n.attr in self.consts or n.attr in self.pnames:
                 return f'(EParam {coq_str(n.attr)})'
             raise ValueError(f'{self.name}: unknown attribute self.{n.attr}')
+        if isinstance(n, ast.Attribute) and ast.unparse(n) == 'sys.maxsize':
+            import sys
+            if sys.maxsize != 2 ** 63 - 1:
+                raise ValueError('the model assumes a 64-bit size_t')
+            return f'(EConst {zlit(sys.maxsize)})'
         if isinstance(n, ast.Attribute) and ast.unparse(n).startswith('hashlib.'):
             obj = hashlib
             for part in ast.unparse(n).split('.')[1:]:
